@@ -738,11 +738,19 @@ def input_states(ctx, env, lines):
         kk = last[-1] if last else start
         out[kk] = {"line": kk, "success": False, "err": "fatal"}
         start = kk + 1
+    shutil.rmtree(os.path.join(env.ex, "IST"), ignore_errors=True)
     return out
 
 
 def oracle(ctx, search):
     env = F.setup(ctx)
+    try:
+        return _oracle(ctx, search, env)
+    finally:
+        shutil.rmtree(env.ex, ignore_errors=True)      # the scratch tree (generated projects, parameter folders) does not stay behind
+
+
+def _oracle(ctx, search, env):
     rnd = random.Random(ctx.seed * 29 + 17)
     fails = []
     lines, groups = [], []
